@@ -106,7 +106,7 @@ InitHist(g, back0) == [k \in 1..g.K |-> <<[v |-> back0[k], s |-> 0, e |-> 0, don
 Allowed(hk, issue) ==
     LET W == 1..Len(hk)
         before == { j \in W : hk[j].kind = "put" /\ hk[j].done /\ hk[j].e < issue }
-        Superseded(i) == \E j \in before : hk[i].done /\ hk[i].e < hk[j].s
+        Superseded(i) == \E j \in before : hk[i].done /\ hk[i].s < hk[j].s /\ hk[i].e < hk[j].e
     IN { hk[i].v : i \in { i \in W : ~Superseded(i) } }
 ReadOK(h, k, issue, ret) == ret \in Allowed(h[k], issue)
 
